@@ -89,9 +89,15 @@ GRAPHS = {
 
 
 def module_source(name: str, pkg: dict, visible: int, invisible: int, graph: dict) -> str:
-	"""pkg: module name -> package (directory) name."""
+	"""pkg: module name -> package (directory) name. invisible = body constant (last digit) + 10 * number of blanks behind the comment line
+	(an edit that changes nothing but trailing white space; comments are copied into the output)."""
+	text = _module_source(name, pkg, visible, invisible % 10, graph)
+	return text + '# note' + ' ' * (invisible // 10) + '\n'
+
+
+def _module_source(name: str, pkg: dict, visible: int, invisible: int, graph: dict) -> str:
 	def imp(m: str, names: str) -> str:
-		return f'from {pkg[m].replace("/", ".")}.{m} import {names}\n'
+		return f'from {pkg[m].replace("/", ".") + "." if pkg[m] else ""}{m} import {names}\n'  # pkg '' = module file directly in the project root
 	if name == 'ma':
 		t, e, vals = [('int', 'n + 1', (1, 2)), ('str', 'str(n)', (3, 4)), ('float', 'float(n)', (5, 7))][visible]
 		return ('from enum import Enum\n\nclass E(Enum):\n\tA = %d\n\tB = %d\n\nclass K:\n\tx: %s\n\n\tdef __init__(self, x: %s) -> None:\n\t\tself.x = x\n\n'
